@@ -49,7 +49,7 @@ PROBES = [
     "n_zero", "no_deliveries", "long_recording", "whole_signal_strided",
 ]
 FAULT_KINDS = ["empty_delivery", "single_sample_delivery", "readonly_delivery", "strided_delivery",
-               "recycled_buffer_delivery"]
+               "recycled_buffer_delivery", "byteswapped_delivery"]
 
 
 def warmup(tier=None):
@@ -96,7 +96,7 @@ def generate(rng, tier, k):
     n = source.gen_lengths(rng, L, S, block if cfg["computer"] == "si" else None, first)
     dl = source.gen_deliveries(rng, n, L, S, block if cfg["computer"] == "si" else None)
     sig = {
-        "kind": rng.choice(("noise", "noise", "noise", "noise", "impulses", "ramp", "const")),
+        "kind": rng.choice(("noise", "noise", "noise", "noise", "impulses", "ramp", "const", "click")),
         "seed": rng.randrange(1 << 30),
         "amp": rng.choice((1e-3, 1.0, 1.0, 1e2)),
         "dtype": rng.choice(("float64", "float64", "float32")),
@@ -225,6 +225,9 @@ def execute(scn, keep_trace=False):
         y[:, 2] = 9.25
         xro = y[:, 1]
         xro.flags.writeable = False
+    if scn["deliveries"] and all(d[1] == "swapped" for d in scn["deliveries"]) and not scn.get("full_strided"):
+        xro = x.astype(x.dtype.newbyteorder())
+        xro.flags.writeable = False
     try:
         F = twin.compute_full(xro)
     except Exception as e:
@@ -272,6 +275,8 @@ def execute(scn, keep_trace=False):
             res.fault("strided_delivery")
         elif mem == "scratch":
             res.fault("recycled_buffer_delivery")
+        elif mem == "swapped":
+            res.fault("byteswapped_delivery")
         try:
             skip_before = getattr(comp, "_skip", 0)
         except Exception:
